@@ -1,7 +1,7 @@
 """C16 - every connection is accounted for exactly once with a truthful record."""
 import re
 
-from ..flow import must_pass, flow_forward, awaited, discr_branch
+from ..flow import must_pass, flow_forward, awaited, discr_branch, bool_branch
 from ..mir import op_base, op_place, op_const, const_int, short
 from . import anchors, panics, scopes
 
@@ -336,23 +336,60 @@ def run(chk, prog):
     dr_calls = [c for c in cb.calls if re.search(r"copy::drain_buffers$", c.name or "")]
     inc = [c for c in cb.calls if re.search(r"ContextStatistics::incr_sent_bytes$", c.name or "")]
     chk.floor("counters", len(dr_calls), 2, "drain_buffers calls")
+    db = prog.body_of(prog.one(r"^copy::drain_buffers$"))
+    wa = [c for c in db.calls if re.search(r"AsyncWriteExt::write_all$", c.path or "")]
+    ln = [c for c in db.calls if re.search(r"slice::<impl \[T\]>::len$", c.path or "")]
+    from .bytebudget import buf_sig
+
+    def same_slice(a, b):
+        return buf_sig(db, a) == buf_sig(db, b) or db.root_name(op_base(a)) == db.root_name(op_base(b))
+    ln_w = [c for c in ln if len(wa) == 1 and same_slice(c.args[0], wa[0].args[1])]
+    # spelling B: drain_buffers itself adds the length of the slice it wrote to a counter it was handed, on every successful path
+    # on which that length is not zero
+    counted_inside = False
+    inc_db = [c for c in db.calls if re.search(r"ContextStatistics::incr_sent_bytes$", c.name or "")]
+    if inc_db and ln_w:
+        from ..flow import result_blocks
+        from .panics import _cmp_facts
+        good_inc = []
+        for c in inc_db:
+            tr = db.trace(op_base(c.args[1])) if len(c.args) > 1 and op_base(c.args[1]) is not None else []
+            if any(k == "call" and info in ln_w for k, info in tr):
+                good_inc.append(c.bb)
+        len_locals = set(c.dest[0] for c in ln_w if len(c.dest) == 1)
+        for l in list(len_locals):
+            len_locals |= set(flow_forward(db, [l], [])[0])
+        zero_edges = []
+        for (sb, tb, cop, a, b) in _cmp_facts(db):
+            la, lb_ = op_base(a), op_base(b)
+            ca, cb_ = db.int_of(a), db.int_of(b)
+            if la in len_locals and cb_ is not None and ((cop in ("Eq", "Le") and cb_ == 0) or (cop == "Lt" and cb_ == 1)):
+                zero_edges.append((sb, tb))
+            if lb_ in len_locals and ca is not None and ((cop in ("Eq", "Ge") and ca == 0) or (cop == "Gt" and ca == 1)):
+                zero_edges.append((sb, tb))
+        for c in db.calls:
+            if re.search(r"slice::<impl \[T\]>::is_empty$", c.path or "") and len(wa) == 1 and same_slice(c.args[0], wa[0].args[1]) and len(c.dest) == 1:
+                for (sb, tt, ft) in bool_branch(db, c.dest[0]):
+                    zero_edges.append((sb, tt))
+        oks = result_blocks(db, "Ok")
+        counted_inside = bool(good_inc) and bool(oks) and not (set(oks) & db.reach_from([0], avoid=good_inc, avoid_edges=zero_edges))
     for d in dr_calls:
         aw = awaited(cb, d)
         ok = False
         if aw and aw["result"] is not None:
             tracked, cons = flow_forward(cb, [aw["result"]], [r"easy_error::ResultExt::context$", r"Try::branch$"])
             ok = any(kind == "call" and info in inc for kind, b, info, l in cons)
-        chk.instance("counters", d.where(), "the bytes drained from the read-ahead are added to the counters", ok)
+        if not ok and counted_inside:
+            ok = any("ContextStatistics" in cb.local_ty_s(op_base(a)) for a in d.args if op_base(a) is not None)
+        chk.instance("counters", d.where(), "the bytes drained from the read-ahead are added to the counters", ok,
+                     "counted inside drain_buffers" if counted_inside else "counted by the caller from the returned length")
         if not ok:
             chk.finding("counters", cb.key, "drain-uncounted", "", d.where(),
                         "copy_bidi forwards buffered early data without adding it to the byte counters: the record under-reports the payload relayed")
-    db = prog.body_of(prog.one(r"^copy::drain_buffers$"))
-    wa = [c for c in db.calls if re.search(r"AsyncWriteExt::write_all$", c.path or "")]
-    ln = [c for c in db.calls if re.search(r"slice::<impl \[T\]>::len$", c.path or "")]
-    ok = len(wa) == 1 and len(ln) >= 1
-    if ok:
-        from .bytebudget import buf_sig
-        ok = buf_sig(db, ln[0].args[0]) == buf_sig(db, wa[0].args[1]) or db.root_name(op_base(ln[0].args[0])) == db.root_name(op_base(wa[0].args[1]))
+    ok = len(wa) == 1 and len(ln) >= 1 and bool(ln_w)
+    if ok and not counted_inside:
+        # spelling A: the length of the written slice is what the function returns
+        ok = same_slice(ln[0].args[0], wa[0].args[1])
     chk.instance("counters", "%s:%s" % (db.file, db.line), "drain_buffers reports the length of the slice it wrote", ok)
     if not ok:
         chk.finding("counters", db.key, "drain-count", "", "%s:%s" % (db.file, db.line), "drain_buffers does not return the length of what it forwarded")
